@@ -326,6 +326,18 @@ func vfSameX509Key(certPEM []byte, submitted interface{}) string {
 	return "0"
 }
 
+// "multi:<variant>:<spec with _ for :>" — a second key in the same upload; returns variant, second spec
+func vfMulti(mut string) (string, string, bool) {
+	if !strings.HasPrefix(mut, "multi:") {
+		return "", "", false
+	}
+	f := strings.SplitN(mut, ":", 3)
+	if len(f) != 3 {
+		return "", "", false
+	}
+	return f[1], strings.ReplaceAll(f[2], "_", ":"), true
+}
+
 // one key on one issuing path; returns "desc=… [re=…] status=… samekey=…"
 func (env *vfC10Env) submit(path, spec, mut string) string {
 	state := env.state
@@ -349,6 +361,29 @@ func (env *vfC10Env) submit(path, spec, mut string) string {
 		} else if strings.HasPrefix(mut, "line:") {
 			if l, ok := vfUnhex(mut[5:]); ok {
 				parts = []string{l}
+			}
+		} else if variant, spec2, ok := vfMulti(mut); ok {
+			// an upload with two keys: the key the parser yields first is the one a signer would certify
+			line2, ok2 := vfSSHLine(spec2)
+			if !ok2 {
+				return "bad-op"
+			}
+			l1, l2 := strings.TrimRight(line, "\n"), strings.TrimRight(line2, "\n")
+			switch variant {
+			case "ab":
+				parts = []string{l1 + "\n" + l2 + "\n"}
+			case "optab": // authorized_keys options in front of the first key
+				parts = []string{"no-pty " + l1 + "\n" + l2 + "\n"}
+			case "restrictab":
+				parts = []string{"restrict,command=\"/bin/true\" " + l1 + "\n" + l2}
+			case "cab": // comment and blank lines first
+				parts = []string{"# my keys\n\n" + l1 + "\n" + l2 + "\n"}
+			case "crlf":
+				parts = []string{l1 + "\r\n" + l2 + "\r\n"}
+			case "tabab":
+				parts = []string{"\t" + l1 + "\n" + l2}
+			default:
+				return "bad-op"
 			}
 		} else if mut != "-" {
 			blob, _ := base64.StdEncoding.DecodeString(parts[1])
@@ -381,7 +416,28 @@ func (env *vfC10Env) submit(path, spec, mut string) string {
 		} else {
 			der = vfMutate(der, mut)
 		}
+		variant, spec2, isMulti := vfMulti(mut)
+		if isMulti {
+			der, _, _ = vfPKIX(spec)
+		}
 		pemKey := string(pem.EncodeToMemory(&pem.Block{Type: ptype, Bytes: der}))
+		if isMulti {
+			der2, _, ok2 := vfPKIX(spec2)
+			if !ok2 {
+				return "bad-op"
+			}
+			pem2 := string(pem.EncodeToMemory(&pem.Block{Type: "PUBLIC KEY", Bytes: der2}))
+			switch variant {
+			case "ab", "optab", "restrictab", "tabab":
+				pemKey = pemKey + pem2
+			case "cab":
+				pemKey = "my keys\n\n" + pemKey + "\n" + pem2
+			case "crlf":
+				pemKey = strings.ReplaceAll(pemKey+pem2, "\n", "\r\n")
+			default:
+				return "bad-op"
+			}
+		}
 		if mut == "nopem" {
 			pemKey = base64.StdEncoding.EncodeToString(der)
 		}
@@ -424,6 +480,13 @@ func (env *vfC10Env) submit(path, spec, mut string) string {
 		}
 		form := url.Values{}
 		form.Add("pubkey", b64)
+		if _, spec2, isMulti := vfMulti(mut); isMulti { // a second pubkey value in the same form
+			der2, _, ok2 := vfPKIX(spec2)
+			if !ok2 {
+				return "bad-op"
+			}
+			form.Add("pubkey", base64.RawURLEncoding.EncodeToString(der2))
+		}
 		if path == "role" {
 			form.Add("identity", "role1")
 			form.Add("requestor_netblock", "10.0.0.0/8")
@@ -447,23 +510,37 @@ func (env *vfC10Env) submit(path, spec, mut string) string {
 		return fmt.Sprintf("desc=%s%s status=PANIC samekey=-", desc, extra)
 	}
 	same := "-"
+	certkey := "-" // what the returned certificate actually certifies
 	if rr.Code == 200 {
+		certkey = "unreadable"
 		if path == "ssh" {
 			same = "0"
 			if ck, _, _, _, err := ssh.ParseAuthorizedKey(rr.Body.Bytes()); err == nil {
-				if cert, ok := ck.(*ssh.Certificate); ok && parsed != nil {
-					if sk, err := ssh.NewPublicKey(parsed); err == nil && bytes.Equal(cert.Key.Marshal(), sk.Marshal()) {
-						same = "1"
+				if cert, ok := ck.(*ssh.Certificate); ok {
+					if cck, ok := cert.Key.(ssh.CryptoPublicKey); ok {
+						certkey = vfDescribe(cck.CryptoPublicKey())
+					}
+					if parsed != nil {
+						if sk, err := ssh.NewPublicKey(parsed); err == nil && bytes.Equal(cert.Key.Marshal(), sk.Marshal()) {
+							same = "1"
+						}
 					}
 				}
 			}
-		} else if parsed != nil {
-			same = vfSameX509Key(rr.Body.Bytes(), parsed)
 		} else {
-			same = "0"
+			if block, _ := pem.Decode(rr.Body.Bytes()); block != nil && block.Type == "CERTIFICATE" {
+				if cert, err := x509.ParseCertificate(block.Bytes); err == nil {
+					certkey = vfDescribe(cert.PublicKey)
+				}
+			}
+			if parsed != nil {
+				same = vfSameX509Key(rr.Body.Bytes(), parsed)
+			} else {
+				same = "0"
+			}
 		}
 	}
-	return fmt.Sprintf("desc=%s%s status=%d samekey=%s", desc, extra, rr.Code, same)
+	return fmt.Sprintf("desc=%s%s status=%d samekey=%s certkey=%s", desc, extra, rr.Code, same, certkey)
 }
 
 // a token aimed at one of the three token parsers reachable from a route
